@@ -16,6 +16,8 @@
                                                                 leading ones: `npdMinors`)
     the parsed Atom object under edits (atom.uvals = …, atom.uvals[k] = …, set_uvals, to_isotropic,
       atom.frac_coords = … (fixes/C12_4), Shelxfile.add_atom)  -> `AtomSt`, `Edit`, `applyEdit`, `history`, `parseAtom`, `newAtom`
+    the Shelxfile object when the cell is changed in place (shx.cell.set('CELL …'), fixes/C12_6)
+                                                             -> `FileSt`, `FEdit`, `applyF`, `fileHistory`
         (all as repaired by fixes/C12_1 … C12_5; the code as it was: `ustarOld`, `ucartOld`, `isoBranchOld`,
          and for is_npd the 100 unshifted QR steps of misc.qr_decomposition / misc.eigenvals: `qrDecomp`, `eigenvals`)
   `math.cos/sin` VALUES enter as fields of `Cell` (`ca … sg`), `math.sqrt` as a function parameter; the proof
@@ -267,6 +269,47 @@ def specUvals (u : U6 K) : List (Edit K) → U6 K
   | .setUvals v :: es => specUvals v es
   | .setItem k v :: es => specUvals (u.set k v) es
   | .setFrac _ :: es => specUvals u es
+
+/-! ### the Shelxfile object when the CELL is changed in place (`shx.cell.set('CELL …')`, fixes/C12_6) -/
+
+/-- what is derived from the cell and kept outside the CELL object: `Shelxfile.orthogonal_matrix` (a reference taken when
+    the CELL line was parsed; read by `Shelxfile.frac_to_cart`) and the atom's cached Cartesian coordinates.
+    (`cell.o`, `cell.N`, `cell.V`, `astar…` are rebuilt by `CELL.__init__`, which `Command.set` re-runs; atoms refer to the
+    same CELL object, so the U chain always sees the current cell.) -/
+structure FileSt (K : Type) where
+  cell : Cell K
+  om : M3 K
+  atom : AtomSt K
+
+inductive FEdit (K : Type) where
+  | atomEdit (e : Edit K)
+  | setCell (c : Cell K)            -- shx.cell.set('CELL λ a b c α β γ')
+
+def readFile (sqrt : K → K) (c : Cell K) (a : AtomSt K) : FileSt K := ⟨c, orthoM sqrt c, a⟩
+
+/-- `CELL.set` as repaired: also refreshes `Shelxfile.orthogonal_matrix` and the atoms' Cartesian coordinates -/
+def applyF (sqrt : K → K) (s : FileSt K) : FEdit K → FileSt K
+  | .atomEdit e => { s with atom := applyEdit (orthoM sqrt s.cell) s.atom e }
+  | .setCell c => ⟨c, orthoM sqrt c, { s.atom with cart := mulVec (orthoM sqrt c) s.atom.frac }⟩
+
+/-- `Command.set` before fixes/C12_6: only the CELL object itself is re-initialised -/
+def applyFOld (sqrt : K → K) (s : FileSt K) : FEdit K → FileSt K
+  | .atomEdit e => { s with atom := applyEdit (orthoM sqrt s.cell) s.atom e }
+  | .setCell c => { s with cell := c }
+
+def fileHistory (sqrt : K → K) (s : FileSt K) (es : List (FEdit K)) : FileSt K := es.foldl (applyF sqrt) s
+def fileHistoryOld (sqrt : K → K) (s : FileSt K) (es : List (FEdit K)) : FileSt K := es.foldl (applyFOld sqrt) s
+
+/-- the cell the history leaves -/
+def specCell (c : Cell K) : List (FEdit K) → Cell K
+  | [] => c
+  | .setCell d :: es => specCell d es
+  | _ :: es => specCell c es
+
+def atomEdits : List (FEdit K) → List (Edit K)
+  | [] => []
+  | .atomEdit e :: es => e :: atomEdits es
+  | .setCell _ :: es => atomEdits es
 
 /-! ### `misc.qr_decomposition`, `misc.eigenvals` (unshifted QR iteration, Gram–Schmidt as coded):
     what `Atom.is_npd` used before the repair -/
